@@ -145,6 +145,20 @@ pub fn cases(thorough: bool) -> Vec<Case> {
     for (n, b) in super::c05::malformed_frames() {
         out.push(Case { name: "(raw)".into(), cmd: vec![], pos: 0, vclass: n.to_string(), state: 0, raw: Some(b) });
     }
+    // truncated frames: every proper prefix of every encoding of the codec corpus (all RESP2/RESP3 frame types,
+    // null forms, nested containers, command arrays), each on its own connection which is then closed
+    // (a seeded off-by-one in the "frame complete?" guard of one RESP3 type went unnoticed without these)
+    {
+        let mut seen: std::collections::BTreeSet<Vec<u8>> = std::collections::BTreeSet::new();
+        for enc in super::c20::encodings_corpus(if thorough { 3 } else { 2 }) {
+            for cut in 1..enc.len() {
+                let p = enc[..cut].to_vec();
+                if seen.insert(p.clone()) {
+                    out.push(Case { name: "(raw)".into(), cmd: vec![], pos: 0, vclass: format!("truncated {}", crate::resp::show_bytes(&p)), state: 0, raw: Some(p) });
+                }
+            }
+        }
+    }
     out.push(Case { name: "(raw)".into(), cmd: vec![], pos: 0, vclass: "bulk header 512MiB then nothing".into(), state: 0, raw: Some(b"*2\r\n$3\r\nGET\r\n$536870912\r\nab".to_vec()) });
     out.push(Case { name: "(raw)".into(), cmd: vec![], pos: 0, vclass: "1 MiB without CRLF".into(), state: 0, raw: Some(vec![b'+'; 1 << 20]) });
     out
@@ -422,7 +436,7 @@ pub fn parent(tier: &str) -> i32 {
     println!("  c06: cases={} verdicts={} outcomes={:?}", all.len(), results.len(), outcomes);
     report.coverage = json!({
         "evaluations": results.len(), "distinct_nontrivial": distinct.len(),
-        "rule": "finite product enumerated completely: every dispatched command (table + names scraped from the source) x every argument position x boundary values (numeric positions: 0, +-1, i32/i64/u64 min/max and max+1, 1e308, inf, nan, empty, ...; id positions: 0-0, max-max, malformed; word positions: empty, 64 KiB, invalid UTF-8, NUL/CRLF, a huge number) x key state (missing, string, list; thorough: all six types and a 10^5-element list and 1 MiB string), plus never-ending / exploding scripts and hostile byte frames (declared lengths up to 10^20, nesting up to 10^6, malformed frames). One case = one request on a fresh connection followed by liveness (event loop alive, PONG on a new connection) and integrity (sentinel dataset of six types in db 1) probes.",
+        "rule": "finite product enumerated completely: every dispatched command (table + names scraped from the source) x every argument position x boundary values (numeric positions: 0, +-1, i32/i64/u64 min/max and max+1, 1e308, inf, nan, empty, ...; id positions: 0-0, max-max, malformed; word positions: empty, 64 KiB, invalid UTF-8, NUL/CRLF, a huge number) x key state (missing, string, list; thorough: all six types and a 10^5-element list and 1 MiB string), plus never-ending / exploding scripts and hostile byte frames (declared lengths up to 10^20, nesting up to 10^6, malformed frames, every proper prefix of every encoding of the codec corpus). One case = one request on a fresh connection followed by liveness (event loop alive, PONG on a new connection) and integrity (sentinel dataset of six types in db 1) probes.",
         "samples": samples, "exhaustive": true, "distinct_outcomes": outcomes.iter().cloned().collect::<Vec<_>>(),
         "excluded": ["SHUTDOWN (documented purpose: exits)", "SYNC/PSYNC (hand the connection to replication)", "REPLICAOF/SLAVEOF with a host (connects out); NO ONE is a case"],
     });
